@@ -206,12 +206,14 @@ pub fn minimise(e: &dyn Engine, mut rp: Replay, want: &Verdict) -> Replay {
         }
     }
     // engine-specific simplifications, to a fixpoint (bounded)
-    for _ in 0..4 {
+    // (candidates are computed from the current replay: accept one, then recompute)
+    for _ in 0..64 {
         let mut changed = false;
         for c in e.simplify(&rp) {
             if c != rp && test(&c, &mut tries) {
                 rp = c;
                 changed = true;
+                break;
             }
         }
         if !changed {
